@@ -37,6 +37,9 @@ package props
 //   confflba <size> <stream hex> <values hex>
 //     (a spec-conformant stream produced by the reference encoder below + the values it encodes; <n> = number of
 //      bytes that follow the stream in the decoder's input — decodeInt32/64 must hand back exactly those)
+//   unpack32 <width> <n> <hex> | unpack64 <width> <n> <hex>
+//     (L2 only: bitpack.Unpack reading n values of the given width vs the Lean mirror of the portable kernel,
+//      which is proved equal to LSB-first unpacking: unpack32/64_kernel)
 // (<vals>: comma separated hex strings, "e" = empty value, "-" = empty list)
 
 import (
@@ -52,6 +55,7 @@ import (
 	"strings"
 	"sync"
 
+	"github.com/parquet-go/bitpack"
 	"github.com/parquet-go/parquet-go/encoding/delta"
 
 	"verifharness/core"
@@ -121,6 +125,8 @@ func (c c04dCase) canon() string {
 		return c.kind + " " + core.Hex(c.raw) + " " + core.JoinInts(c.ints)
 	case "confflba":
 		return fmt.Sprintf("confflba %d %s %s", c.size, core.Hex(c.raw), c04dVals(c.vals))
+	case "unpack32", "unpack64":
+		return fmt.Sprintf("%s %d %d %s", c.kind, c.size, c.tail, core.Hex(c.raw))
 	case "confdlba", "confdba":
 		return c.kind + " " + core.Hex(c.raw) + " " + c04dVals(c.vals)
 	default:
@@ -216,6 +222,18 @@ func c04dParse(line string) (c04dCase, bool) {
 		if ok {
 			c.vals, ok = c04dParseVals(f[3])
 		}
+	case "unpack32", "unpack64":
+		if len(f) < 4 {
+			return c, false
+		}
+		c.size, _ = strconv.Atoi(f[1])
+		c.tail, _ = strconv.Atoi(f[2])
+		c.raw, ok = c04dParseHex(f[3])
+		maxW := 32
+		if f[0] == "unpack64" {
+			maxW = 64
+		}
+		ok = ok && c.size >= 1 && c.size <= maxW && c.tail >= 0 && c.tail*c.size <= 8*len(c.raw)
 	case "confdlba", "confdba":
 		if len(f) < 3 {
 			return c, false
@@ -1094,7 +1112,7 @@ func (w *c04dWorker) runFLBA(c c04dCase) {
 // miniblock is arbitrary.
 
 var c04dGeometries = [][2]int{{128, 4}, {128, 2}, {128, 1}, {256, 4}, {256, 8}, {256, 2}, {256, 1}, {384, 4}, {384, 12},
-	{512, 4}, {512, 16}, {512, 8}, {640, 20}, {1024, 8}, {1024, 32}}
+	{512, 4}, {512, 16}, {512, 8}, {640, 20}, {1024, 8}, {1024, 32}, {2048, 2}, {4096, 128}, {65536, 2048}}
 
 type c04dBitWriter struct {
 	b []byte
@@ -1369,6 +1387,53 @@ func (w *c04dWorker) runConformant(c c04dCase) {
 	})
 }
 
+// L2 for the unpacking kernel the decoders call: bitpack.Unpack (assembly on the asm build, unpackInt32/64 on
+// purego) vs the Lean transliteration of the portable kernel (goUnpackInt32/64, proved equal to LSB-first
+// unpacking). The buffer is followed by garbage: the padding the kernels may read must not matter.
+func (w *c04dWorker) runUnpack(c c04dCase) {
+	ctx := w.ctx
+	canon := c.canon()
+	width, n := c.size, c.tail
+	ctx.Case(canon, n >= 2)
+	ctx.Hist(c.kind+"-width", fmt.Sprintf("%02d", width))
+	buf := make([]byte, len(c.raw)+64)
+	copy(buf, c.raw)
+	for i := len(c.raw); i < len(buf); i++ {
+		buf[i] = 0xA5
+	}
+	var got string
+	func() {
+		defer func() {
+			if p := recover(); p != nil {
+				got = "panic " + fmt.Sprint(p)
+			}
+		}()
+		if c.kind == "unpack32" {
+			dst := make([]int32, n)
+			bitpack.Unpack(dst, buf[:len(c.raw)], uint(width))
+			u := make([]uint32, n)
+			for i, v := range dst {
+				u[i] = uint32(v)
+			}
+			got = "ok " + core.JoinInts(u)
+		} else {
+			dst := make([]int64, n)
+			bitpack.Unpack(dst, buf[:len(c.raw)], uint(width))
+			u := make([]uint64, n)
+			for i, v := range dst {
+				u[i] = uint64(v)
+			}
+			got = "ok " + core.JoinInts(u)
+		}
+	}()
+	w.ask(fmt.Sprintf("delta.%s %d %d %s", c.kind, width, n, core.Hex(c.raw)), func(ans string) {
+		if ans != got {
+			ctx.Fail("L2", "delta-unpack-kernel-mirror", "bitpack.Unpack and the Lean mirror of the portable kernel disagree ("+ctx.Variant+" build)",
+				map[string]any{"case": c04dClip(canon), "impl": c04dClip(got), "model": c04dClip(ans)})
+		}
+	})
+}
+
 // outcome of the internal decodeInt32/64 (hooks VerifDecodeInt32/64): "ok <ints> <unread bytes>" | "err …" | "panic …"
 func c04dGoDecodeRest(bits string, raw []byte) (res string) {
 	defer func() {
@@ -1615,6 +1680,8 @@ func (w *c04dWorker) run(c c04dCase) {
 		}
 	case "conf32", "conf64", "confdlba", "confdba", "confflba":
 		w.runConformant(c)
+	case "unpack32", "unpack64":
+		w.runUnpack(c)
 	default:
 		w.runMalformed(c)
 	}
@@ -1642,7 +1709,7 @@ func c04dCorners(ctx *core.Ctx) {
 }
 
 func RunC04Delta(ctx *core.Ctx) {
-	ctx.SetRule("delta: value sequences (int32/int64: boundary lengths 0,1,2,31..34,63..66,127..131,255..259,1000s x 12 value patterns incl. overflowing deltas; byte arrays: 9 patterns incl. empty/long/0xFF/word-boundary shared prefixes; FLBA sizes 1..33) encoded by the real encoder into nil and dirty/reused dst, decoded by Go and by the Lean spec decoder, compared byte-exact with the Lean mirror; plus spec-conformant streams of a reference encoder written from Encodings.md (15 block/miniblock geometries, non-minimal widths, any frame of reference) decoded by Go and by the spec decoder, unneeded miniblocks with stale width bytes, bytes following the stream (decodeInt32/64 must leave exactly those unread), FIXED_LEN_BYTE_ARRAY through foreign DELTA_BYTE_ARRAY streams, every stream also rendered by the Lean family of conformant streams from the same choices; plus malformed streams (random, free-form, truncated, mutated, extended; observations only). Distinct by canonical input text; non-trivial = at least 2 values (ints), at least 2 values with a non-empty one (byte arrays), more than 4 bytes (malformed)")
+	ctx.SetRule("delta: value sequences (int32/int64: boundary lengths 0,1,2,31..34,63..66,127..131,255..259,1000s x 12 value patterns incl. overflowing deltas; byte arrays: 9 patterns incl. empty/long/0xFF/word-boundary shared prefixes; FLBA sizes 1..33) encoded by the real encoder into nil and dirty/reused dst, decoded by Go and by the Lean spec decoder, compared byte-exact with the Lean mirror; plus spec-conformant streams of a reference encoder written from Encodings.md (18 block/miniblock geometries up to the 65536 limit, non-minimal widths, any frame of reference) decoded by Go and by the spec decoder, unneeded miniblocks with stale width bytes, bytes following the stream (decodeInt32/64 must leave exactly those unread), FIXED_LEN_BYTE_ARRAY through foreign DELTA_BYTE_ARRAY streams, every stream also rendered by the Lean family of conformant streams from the same choices; plus malformed streams (random, free-form, truncated, mutated, extended; observations only). Distinct by canonical input text; non-trivial = at least 2 values (ints), at least 2 values with a non-empty one (byte arrays), more than 4 bytes (malformed)")
 	var cases []c04dCase
 	// corpus / replay first
 	files := ctx.CorpusFiles()
@@ -1734,7 +1801,9 @@ func RunC04Delta(ctx *core.Ctx) {
 				}
 				n := c04dLen(r) % 1300
 				if r.Intn(3) == 0 { // around the block and miniblock boundaries of this geometry
-					n = max(0, []int{g[0] / g[1], g[0], 2 * g[0], g[0] + g[0]/g[1]}[r.Intn(4)]+r.Intn(5)-1)
+					if k := []int{g[0] / g[1], g[0], 2 * g[0], g[0] + g[0]/g[1]}[r.Intn(4)]; k <= 5000 {
+						n = max(0, k+r.Intn(5)-1)
+					}
 				}
 				pat := c04dIntPats[r.Intn(len(c04dIntPats))]
 				xs := c04dInts(r, b, n, pat)
@@ -1780,6 +1849,36 @@ func RunC04Delta(ctx *core.Ctx) {
 					c.base, c.tail = 1+r.Intn(9), 1+r.Intn(9)
 				}
 				cases = append(cases, c)
+			}
+		}
+		// the unpacking kernel on the shapes the decoders call it with: a miniblock of vpm values, the first n read
+		nUnp := ctx.Scale(600, 5000) * mul
+		for i := 0; i < nUnp; i++ {
+			for _, kind := range []string{"unpack32", "unpack64"} {
+				maxW := 32
+				if kind == "unpack64" {
+					maxW = 64
+				}
+				width := 1 + i%maxW
+				vpm := []int{32, 64, 128, 256}[r.Intn(4)]
+				n := 1 + r.Intn(vpm)
+				if r.Intn(3) == 0 {
+					n = vpm
+				}
+				raw := make([]byte, vpm*width/8)
+				switch r.Intn(3) {
+				case 0:
+					r.Read(raw)
+				case 1:
+					for j := range raw {
+						raw[j] = 0xFF
+					}
+				default:
+					for j := range raw {
+						raw[j] = byte(1) << uint(r.Intn(8))
+					}
+				}
+				cases = append(cases, c04dCase{kind: kind, size: width, tail: n, raw: raw, pat: "unpack", seed: r.Int63()})
 			}
 		}
 		nMal := ctx.Scale(2500, 20000) * mul
